@@ -20,6 +20,7 @@ use uuid::Uuid;
 
 // ---------------------------------------------------------------- allocation meter
 struct Meter;
+static K09_LISTED: AtomicUsize = AtomicUsize::new(0);
 static LIVE: AtomicUsize = AtomicUsize::new(0);
 static PEAK: AtomicUsize = AtomicUsize::new(0);
 unsafe impl GlobalAlloc for Meter {
@@ -593,7 +594,12 @@ fn oracle_c09(o: &mut Out, cx: &mut Ctx, id: &str, a: &[ItemV], b: &[ItemV], tbl
     let mut d = Delta::new();
     let created = guard(|| d.create_raw(&ra, &rb));
     if let Err(p) = created {
-        o.check(false, if k09 { "K09" } else { "-" }, id, || format!("Delta::create panics for A={} B={}: {}", items_txt(a), items_txt(b), p));
+        // the oracle file keeps the first 2000 failures: list at most 300 K09 pairs so that nothing else is crowded out
+        if k09 && K09_LISTED.fetch_add(1, Ordering::Relaxed) >= 300 {
+            o.count("K09 pairs (create panics; not listed)");
+        } else {
+            o.check(false, if k09 { "K09" } else { "-" }, id, || format!("Delta::create panics for A={} B={}: {}", items_txt(a), items_txt(b), p));
+        }
         return;
     }
     let want = raw_items(&rb);
@@ -1387,7 +1393,11 @@ fn judge(o: &mut Out, id: &str, m_out: &[String], m_script: &[String], panic_msg
     if let Some(p) = panic_msg {
         // the only known class: Delta::create between snapshots that share a key with different lengths
         let class = if p.starts_with("create") && p.contains("item sizes can't be mismatched") { "K09" } else { "-" };
-        o.check(false, class, id, || format!("panic in {} after [{}]", p, m_script.join(" | ").chars().take(400).collect::<String>()));
+        if class == "K09" && K09_LISTED.fetch_add(1, Ordering::Relaxed) >= 300 {
+            o.count("K09 pairs (create panics; not listed)");
+        } else {
+            o.check(false, class, id, || format!("panic in {} after [{}]", p, m_script.join(" | ").chars().take(400).collect::<String>()));
+        }
     }
     // accepted snapshot: limits, and write/read gives an equal snapshot
     let find = |name: &str, from: usize| m_out.iter().enumerate().skip(from).find(|(_, x)| x.starts_with(name)).map(|(i, x)| (i, x.clone()));
